@@ -1,6 +1,6 @@
 """LDPC matrix-construction rules (C05, C12, C15): R-PURE-PCHK, R-GLOBALS, R-VERBOSITY, R-COLFILL, R-STAIRCASE,
 R-EXTRA-MARK, R-FLAG-TRUTH, R-NULLFEED."""
-from .ir import Terms, strip_casts, const_of, atoms_at, has_atom, show, ret_sources, loop_range, out_edges, cond_atoms, \
+from .ir import norm_atom, Terms, strip_casts, const_of, atoms_at, has_atom, show, ret_sources, loop_range, out_edges, cond_atoms, \
     verbosity_regions_pure, contradicted_edges, calls_in_loop, term_mentions_global
 from .effects import effects, addr_root, PURE_EXTERNAL, ALLOCATORS, DEALLOCATORS
 from .rules_decode import fld, L, is_field_load, _V
@@ -811,9 +811,9 @@ def r_rowdeg2(ctx, prog):
                             else:
                                 problems.append((icmp, 'the test of the second entry starts from a pointer that need not be the '
                                                  'first entry of the row'))
-                    elif ct[0] == 'cmp' and ct[3] == ('const', 1) and 'load' not in repr(ct[2]) and \
-                            ((ct[1] == 'ugt' and not pol) or (ct[1] == 'ule' and pol)):
-                        out = frozenset()       # assumption: more than one source column
+                    elif any(a5[0] == 'cmp' and a5[3] == ('const', 1) and 'load' not in repr(a5[2]) and a5[1] in ('ule', 'ult', 'eq')
+                             for a5 in (norm_atom(x5) for x5 in cond_atoms(tt, lab[1], pol))):
+                        out = frozenset()       # assumption: more than one source column (also when the test is kept in a bool)
                 if state_out.get((b.id, s2.id)) != out:
                     state_out[(b.id, s2.id)] = out
                     changed = True
